@@ -54,7 +54,8 @@ class SequenceStep(GeneticStep):
                 target_size,
                 generation,
             )
-        yield from npopulation
+        for _, ind in zip(range(target_size), npopulation):
+            yield ind
 
     def __str__(self):
         return ";".join([f"({x})" for x in self.steps])
